@@ -1,4 +1,6 @@
-import Ccp.Proofs.Brace
+import Ccp.Proofs.BraceTree
+import Ccp.Props.C02
+import Ccp.Props.C03
 /-!
 # C08 — brace-delimited configs become an indentation tree that mirrors the nesting
 
@@ -7,7 +9,7 @@ Property theorems only.  Specification (`Stmt`, `flatten`, `treeParents`, `Layou
 `Ccp/Proofs/Brace.lean`.
 -/
 namespace Ccp.C08
-open Ccp.Brace Ccp.Py
+open Ccp.Brace Ccp.Py Ccp.Tree
 
 /-- the width `CiscoConfParse(syntax='junos')` indents with is the property's "four spaces"
 (table lemma over the generated constant) -/
@@ -15,19 +17,19 @@ theorem stop_width_is_four : Gen.junosStopWidth = 4 := by decide
 
 /-- **Round trip.**  For every well-formed statement tree (words: non-empty visible ASCII
 without braces; first word of a statement not starting with a quote — F31; last word not
-ending in `;`) and every layout whose white space consists of blanks, LF and CR — indentation,
-blank lines, trailing blanks, semicolon present or absent per statement, brace on the same or
-a later line, one-line blocks, empty blocks, several blocks on a line — whatever way the
-rendering is cut into input lines, `CiscoConfParse(lines, syntax='junos')` hands the
-bootstrap exactly the preorder flattening, four blanks per enclosing block, closing braces
-producing nothing.
+ending in `;`) and every layout whose white space consists of blanks, tabs, LF and CR —
+indentation by blanks or tabs, blank lines, trailing white space, semicolon present or absent
+per statement, brace on the same or a later line, one-line blocks, empty blocks, several
+blocks on a line — whatever way the rendering is cut into input lines,
+`CiscoConfParse(lines, syntax='junos')` hands the bootstrap exactly the preorder flattening,
+four blanks per enclosing block, closing braces producing nothing.
 
-Full statement wanted (`brace_roundtrip`): the same with tabs allowed in the white-space
-fields of the layout (pyparsing expands them to blanks before parsing).  Missing layout
-dimension: tabs.  `#` comment lines are not a layout dimension: `BraceParse` never consults
+Remaining hypotheses, all explicit: `ListOk T` (above) and `LayoutOk L` (layout white space is
+white space).  `#` comment lines are not a layout dimension: `BraceParse` never consults
 `comment_delimiters`, a comment line is a statement and yields a line (it is covered here as
-a leaf whose first word starts with `#`). -/
-theorem brace_roundtrip_partial (L : Layout) (T : List Stmt) (hT : ListOk T) (hL : LayoutOk L)
+a leaf whose first word starts with `#`).  A tab *inside* a statement is outside `WordOk`
+(pyparsing turns it into blanks inside the token). -/
+theorem brace_roundtrip (L : Layout) (T : List Stmt) (hT : ListOk T) (hL : LayoutOk L)
     (lines : List Str) (hne : lines ≠ []) (hl : join ['\n'] lines = render L T) :
     junosToIos lines = .ok (flatten T) := by
   unfold junosToIos convertJunosToIos
@@ -44,14 +46,11 @@ theorem flatten_parent (T : List Stmt) (hT : ListOk T) :
   indentParents_flatten T hT
 
 /-- **Missing closing brace.**  Deleting any one `}` from the rendering of a well-formed tree
-makes the conversion raise `ParseException`, however the text is cut into lines.
-
-Full statement wanted (`missing_close_errors`): without the hypothesis `hq`.  Proved here for
-renderings that contain no quote character at all (a quote inside a statement is legal for
-the round trip; here it is excluded because the balance argument counts every brace, and a
-quoted token may hide one); tabs excluded as in `brace_roundtrip_partial`. -/
-theorem missing_close_errors_partial (L : Layout) (T : List Stmt) (hT : ListOk T) (hL : LayoutOk L)
-    (hq : ∀ c ∈ render L T, c ≠ '"' ∧ c ≠ '\'')
+(any layout, tabs included; quote characters inside statements allowed) makes the conversion
+raise `ParseException`, however the text is cut into lines.  (Argument: in such a text no
+token starts with a quote, before or after the deletion, so `quoted_string` never hides a
+brace and the group opened by the wrapper cannot close.) -/
+theorem missing_close_errors (L : Layout) (T : List Stmt) (hT : ListOk T) (hL : LayoutOk L)
     (a b : Str) (hab : render L T = a ++ '}' :: b)
     (lines : List Str) (hne : lines ≠ []) (hl : join ['\n'] lines = a ++ b) :
     junosToIos lines = .error .parseException := by
@@ -61,17 +60,78 @@ theorem missing_close_errors_partial (L : Layout) (T : List Stmt) (hT : ListOk T
     have := renderList_bal L hL T [] 0 hT 0 []
     rw [List.append_nil] at this
     rw [← hab]; exact this
-  have hsub : ∀ x ∈ a ++ b, x ∈ render L T := by
-    intro x hx; rw [hab]
-    rcases List.mem_append.mp hx with h | h <;> simp [h]
+  have hsafe : safe false (a ++ '}' :: (b ++ ['}'])) = true := by
+    have := renderList_safe L hL T [] 0 hT ['}'] (by decide)
+    have e : render L T = renderList L [] 0 T := rfl
+    rw [← e, hab] at this
+    simpa using this
   have hhead : ∀ x ∈ (a ++ b).head?, x ≠ '{' ∧ x ≠ '}' := by
     have h0 := render_head L hL T hT
     rw [hab] at h0
     cases a with
     | nil => exact absurd rfl (h0 '}' (by simp)).2
     | cons x a' => intro y hy; exact h0 y (by simpa using hy)
-  exact braceText_missing_close _ a b hbal (fun c hc => hq c (hsub c hc))
-    (fun x hx => renderList_notab L hL T [] 0 hT x (hsub x hx)) hhead
+  exact braceText_missing_close _ a b hbal hsafe hhead
+
+/-! ### on the shared tree model (C01–C03) -/
+
+/-- the bootstrap options of the model are the tables of `/repo`: `'#'` is the junos comment
+delimiter and junos is a brace syntax (no banner / macro pass) -/
+theorem junos_tables :
+    Gen.syntaxCommentDelimiters.lookup "junos" = some ["#"] ∧ "junos" ∈ Gen.allBraceSyntax ∧
+    junosCfg.delims = ['#'] := by decide
+
+/-- **The local parent rule is C02's rule** on configuration lines: for every list of lines
+none of which is blank or a comment, pass 1 of the shared bootstrap model — which
+`Ccp.C02.linkByIndent_eq_spec` proves equal to `specParent` — gives every line the parent
+that `indentParents` (nearest preceding line with strictly smaller indentation) gives it,
+a root being its own parent (`selfRoots`). -/
+theorem local_rule_is_specParent (cfg : Cfg) (ls : List Str)
+    (hcfg : ∀ l ∈ ls, isConfigLine cfg l = true) :
+    linkByIndent cfg ls = selfRoots 0 (indentParents ls) ∧
+    ∀ i, i < ls.length → (selfRoots 0 (indentParents ls))[i]? = some (specParent (ls.map (info cfg)) i) := by
+  have h := linkByIndent_eq_local cfg ls hcfg
+  exact ⟨h, fun i hi => h ▸ (Ccp.C02.linkByIndent_eq_spec cfg ls).2 i hi⟩
+
+/-- **Parents, on the shared tree builder.**  For a well-formed statement tree none of whose
+statements begins with `#` (`hc`, stated on the converted lines: no line is a comment for the
+bootstrap; a `#` line under a deeper line is F32), the parent links that the bootstrap verified
+by C01–C03 computes on the converted lines are the tree parents: every statement's parent is the
+statement that opened its innermost enclosing block, top-level statements are roots.
+Pass 1 (`linkByIndent`) is the whole bootstrap of a brace syntax; the second conjunct says the
+same of the full `parse` of the indentation syntaxes when no converted line happens to look
+like a banner start. -/
+theorem flatten_parent_shared (T : List Stmt) (hT : ListOk T)
+    (hc : ∀ l ∈ flatten T, isComment junosCfg l = false) :
+    linkByIndent junosCfg (flatten T) = selfRoots 0 (treeParents T) ∧
+    ((∀ l ∈ flatten T, isBannerStart l = false) →
+      (parse junosCfg (flatten T)).texts = flatten T ∧
+      (parse junosCfg (flatten T)).parents = selfRoots 0 (treeParents T)) := by
+  have h1 : linkByIndent junosCfg (flatten T) = selfRoots 0 (treeParents T) := by
+    rw [linkByIndent_eq_local junosCfg _ (flatten_isConfigLine junosCfg T hT hc), indentParents_flatten T hT]
+  refine ⟨h1, fun hb => ?_⟩
+  obtain ⟨ht, hp, -⟩ := Ccp.C02.parse_links_eq_spec junosCfg (flatten T) hb (by intro h; cases h) rfl
+  exact ⟨ht, by rw [hp, ← linkByIndent_eq_map, h1]⟩
+
+/-- **`junos_forest`** (the item C03 left open): whatever brace-syntax input is accepted, the
+resulting tree — converted lines, parent links by pass 1 of the shared bootstrap — is a forest
+in the sense of C03 (one parent index per line, no parent after its child), so all of C03's
+theorems about children, ancestors and the family views apply to it; its texts are the
+converted lines. -/
+theorem junos_forest (lines : List Str) (t : T) (h : junosParse lines = .ok t) :
+    Ccp.Tree.Forest t ∧ junosToIos lines = .ok t.texts := by
+  obtain ⟨out, ho, ht, hinv⟩ := junosParse_inv lines t h
+  exact ⟨forest_of_inv hinv, by rw [ht]; exact ho⟩
+
+/-- **The whole parse of a rendered tree**: texts = flattening, parents = tree parents. -/
+theorem junos_tree (L : Layout) (T : List Stmt) (hT : ListOk T) (hL : LayoutOk L)
+    (hc : ∀ l ∈ flatten T, isComment junosCfg l = false)
+    (lines : List Str) (hne : lines ≠ []) (hl : join ['\n'] lines = render L T) :
+    junosParse lines = .ok { texts := flatten T, parents := selfRoots 0 (treeParents T),
+                             keep := (flatten T).map (fun _ => false) } := by
+  unfold junosParse
+  rw [brace_roundtrip L T hT hL lines hne hl]
+  simp only [(flatten_parent_shared T hT hc).1]
 
 /-! ### non-vacuity -/
 
@@ -124,6 +184,49 @@ example : LayoutOk exL := by
 /-- the same text with the brace that closes `ports` deleted is rejected -/
 example : errOf (junosToIos (splitOn '\n'
     "system\n{    host-name r1;  \n  ports { console type vt100;  \n}\n\nversion 11.4R7.5;\n\r\n# end".toList))
+    = some .parseException := by
+  decide +kernel
+
+/-- the shared bootstrap on the converted lines of the example (the `#` line is a root) -/
+example : linkByIndent junosCfg (flatten exT) = [0, 0, 0, 2, 4, 5] := by decide +kernel
+
+example : selfRoots 0 (treeParents exT) = [0, 0, 0, 2, 4, 5] := by decide +kernel
+
+/-- the hypothesis `hc` of `flatten_parent_shared` holds for the example without its comment -/
+example : ∀ l ∈ flatten (exT.take 2), isComment junosCfg l = false := by decide +kernel
+
+example : (junosParse (splitOn '\n' (render exL exT))).toOption.map (·.parents) = some [0, 0, 0, 2, 4, 5] := by
+  decide +kernel
+
+/-! tabs in the layout, a quoted string inside a statement -/
+
+def exT2 : List Stmt :=
+  [.node ["interfaces".toList] [.node ["description".toList, "\"up".toList, "link\"".toList] [],
+                               .node ["unit".toList, "0".toList] []]]
+
+def exL2 : Layout := fun p =>
+  match p with
+  | [0] => ⟨[], false, "\t".toList, false, "\n".toList, []⟩
+  | [0, 0] => ⟨"\n\t".toList, true, " \t ".toList, false, [], []⟩
+  | _ => ⟨"\t\t".toList, true, [], true, "\t".toList, "\t".toList⟩
+
+example : String.ofList (render exL2 exT2) =
+    "interfaces\t{\n\tdescription \"up link\"; \t \n\t\tunit 0;{\t}\t\n}" := by decide +kernel
+
+example : (junosToIos (splitOn '\n' (render exL2 exT2))).toOption =
+    some (["interfaces", "    description \"up link\"", "    unit 0"].map String.toList) := by decide +kernel
+
+example : ListOk exT2 := by
+  simp [exT2, ListOk, StmtOk, WordsOk, WordOk, isPrintable]
+
+example : LayoutOk exL2 := by
+  intro p
+  unfold exL2
+  split <;> (refine ⟨?_, ?_, ?_, ?_⟩ <;> (unfold AllWs; decide +kernel))
+
+/-- the last brace deleted: rejected, quotes and tabs notwithstanding -/
+example : errOf (junosToIos (splitOn '\n'
+    "interfaces\t{\n\tdescription \"up link\"; \t \n\t\tunit 0;{\t}\t\n".toList))
     = some .parseException := by
   decide +kernel
 
